@@ -167,6 +167,15 @@ def Refines (b : Bitstream) (P : Nat) (r : AbsRes) (c : Except Err (Int × Bitst
   | .fail => ∃ b', c = .ok (mostNegativeInt32, b')
   | .panic => c = .error .panic
 
+theorem Refines.of_eq_bytes {b b2 : Bitstream} {P : Nat} {r : AbsRes} {c : Except Err (Int × Bitstream)}
+    (h : Refines b2 P r c) (hb : b2.bytes = b.bytes) : Refines b P r c := by
+  cases r with
+  | sym s k' =>
+    obtain ⟨b', e1, e2, e3, e4⟩ := h
+    exact ⟨b', e1, e2, e3, e4.trans hb⟩
+  | fail => exact h
+  | panic => exact h
+
 theorem slowDecodeLoop_refines (h : Huffman) (rem i code first symIndex k P : Nat) (b : Bitstream)
     (hb : b.Inv) (hP : b.pos = P + k) :
     Refines b P (absLoop h (fun j => streamBit b.bytes (P + j)) (8 * b.bytes.size - P) rem i code first symIndex k)
@@ -213,21 +222,12 @@ theorem slowDecodeLoop_refines (h : Huffman) (rem i code first symIndex k P : Na
           · rw [hc.2, hp1, hP]; omega
           · exact hby1
       · simp only [hcode, if_false]
+        generalize hb2 : ({ b1 with bits := b1.bits >>> 1, nBits := b1.nBits - 1 } : Bitstream) = b2 at hc ⊢
+        have e0 : b2.bytes = b.bytes := by rw [← hb2]; exact hby1
         have := ih (i + 1) ((code ||| (streamBit b.bytes (P + k)).toNat) <<< 1 % 4294967296)
           ((first + h.counts.getD i 0) <<< 1 % 4294967296) (symIndex + h.counts.getD i 0) (k + 1)
-          ({ b1 with bits := b1.bits >>> 1, nBits := b1.nBits - 1 } : Bitstream) hc.1
-          (by rw [hc.2, hp1, hP]; omega)
-        have e0 : ({ b1 with bits := b1.bits >>> 1, nBits := b1.nBits - 1 } : Bitstream).bytes = b.bytes := hby1
+          b2 hc.1 (by rw [hc.2, hp1, hP]; omega)
         rw [e0] at this
-        -- transport `Refines` from the advanced cursor back to `b`
-        revert this
-        generalize absLoop h (fun j => streamBit b.bytes (P + j)) (8 * b.bytes.size - P) rem (i + 1) _ _ _ (k + 1) = r
-        intro this
-        cases r with
-        | sym s k' =>
-          obtain ⟨b', e1, e2, e3, e4⟩ := this
-          exact ⟨b', e1, e2, e3, e4.trans hby1⟩
-        | fail => exact this
-        | panic => exact this
+        exact Refines.of_eq_bytes this e0
 
 end WuffsVerif.Flate.Cut
